@@ -20,6 +20,71 @@ def c14_jobs(tier):
     return jobs
 
 
+LEAF_KINDS = list(range(1, 14))
+
+
+def c02_jobs(tier):
+    ns = [0, 1, 2] if tier == "quick" else [0, 1, 2, 3, 5]
+    jobs = [J("hsms", "ZZ_C02_leaf", kind=k, n=n) for k in LEAF_KINDS for n in ns]
+    if tier == "quick":
+        jobs += [J("hsms", "ZZ_C02_tree", depth=2, width=2, menu=2, maxn=1)]
+    else:
+        jobs += [J("hsms", "ZZ_C02_tree", depth=2, width=2, menu=6, maxn=1, timeout_s=1500),
+                 J("hsms", "ZZ_C02_tree", depth=3, width=2, menu=2, maxn=1, timeout_s=1500),
+                 J("hsms", "ZZ_C02_tree", depth=1, width=3, menu=13, maxn=2, timeout_s=1500)]
+    jobs += [J("hsms", "ZZ_C02_incomplete", which=w) for w in range(4)]
+    return jobs
+
+
+def c01_jobs(tier):
+    ns = [0, 1, 2] if tier == "quick" else [0, 1, 2, 3, 6]
+    jobs = [J("hsms", "ZZ_C01_leaf", kind=k, n=n) for k in LEAF_KINDS for n in ns]
+    if tier == "quick":
+        jobs += [J("hsms", "ZZ_C01_tree", depth=2, width=2, menu=2, maxn=1)]
+        bsizes = [255, 256, 257]
+    else:
+        jobs += [J("hsms", "ZZ_C01_tree", depth=2, width=2, menu=6, maxn=1, timeout_s=1500),
+                 J("hsms", "ZZ_C01_tree", depth=3, width=2, menu=2, maxn=1, timeout_s=1500),
+                 J("hsms", "ZZ_C01_tree", depth=1, width=3, menu=13, maxn=2, timeout_s=1500)]
+        bsizes = [255, 256, 257, 65535, 65536]
+    for kind in (0, 1, 3, 11, 12, 6):  # list, binary, ascii, u1, u2, i2
+        w = [1, 1, 1, 1, 8, 1, 2, 4, 8, 4, 8, 1, 2, 4][kind]
+        for b in bsizes:
+            if b % w == 0 or kind in (0,):
+                jobs.append(J("hsms", "ZZ_C01_boundary", kind=kind, n=b // w, fuel=400_000_000))
+            else:
+                jobs.append(J("hsms", "ZZ_C01_boundary", kind=kind, n=(b + w - 1) // w, fuel=400_000_000))
+    return jobs
+
+
+def c03_jobs(tier):
+    ks = [0, 1, 2, 3] if tier == "quick" else [0, 1, 2, 3, 4, 5]
+    jobs = [J("hsms", "ZZ_C03_raw", k=k, freelen=0, timeout_s=(240 if tier == "quick" else 3000)) for k in ks]
+    jobs += [J("hsms", "ZZ_C03_raw", k=k, freelen=1) for k in ([0, 1] if tier == "quick" else [0, 1, 2])]
+    ns = [0, 1, 2] if tier == "quick" else [0, 1, 2, 3]
+    for kind in range(1, 14):
+        for n in ns:
+            for nlb in (1, 2, 3):
+                for corr in range(8):
+                    if tier == "quick" and (n == 2 and nlb == 2 or corr in (5, 6, 7) and (n, nlb) != (1, 1)):
+                        continue
+                    jobs.append(J("hsms", "ZZ_C03_structured", kind=kind, n=n, nlb=nlb, corr=corr))
+    return jobs
+
+
+def c07_jobs(tier):
+    ks = [0, 1, 2, 3] if tier == "quick" else [0, 1, 2, 3, 4, 5]
+    jobs = [J("hsms", "ZZ_C07_raw", k=k, freelen=0, timeout_s=(240 if tier == "quick" else 3000)) for k in ks]
+    jobs += [J("hsms", "ZZ_C07_raw", k=k, freelen=1) for k in [0, 1]]
+    depths = [0, 1, 2] if tier == "quick" else [0, 1, 2, 3, 4]
+    for d in depths:
+        for nlb in (1, 2, 3):
+            for present in ((0, 2) if tier == "quick" else (0, 1, 2, 4)):
+                for kind in ((0, 1, 3, 6, 9) if tier == "quick" else range(14)):
+                    jobs.append(J("hsms", "ZZ_C07_declared", depth=d, nlb=nlb, present=present, kind=kind))
+    return jobs
+
+
 def c13_jobs(tier):
     jobs = [J("ast", "ZZ_C13_header", typ=t) for t in range(14)]
     jobs += [J("ast", "ZZ_C13_bytelen", typ=t) for t in range(14)]
@@ -27,6 +92,26 @@ def c13_jobs(tier):
 
 
 PROPS = {
+    "C03": dict(jobs=c03_jobs, must_reach=["end"],
+                level_text="Bounded model checking against a strict reference decoder written from the E5/E37 text: both run on the same symbolic bytes, verdict and canonical re-encoding compared on every path; plus structured encodings with non-minimal length bytes and single-point corruptions.",
+                level_note="Trusted: go/ssa, engine, z3, and the reference decoder in harness/hsms/c03_c07.go (the oracle).",
+                bounds={"quick": "unstructured: 14-byte frame + k<=3 arbitrary text bytes; structured: 13 formats x n<=2 x nlb 1..3 x 8 corruptions", "thorough": "k<=5; n<=3"},
+                outside=["message text longer than the bound", "more than one simultaneous corruption in the structured family"]),
+    "C07": dict(jobs=c07_jobs, must_reach=["end"],
+                level_text="Bounded model checking of totality (no panic escapes Parse on any path) and of every variable-size allocation request against a threshold with the declared lengths symbolic; candidates are decided by native TotalAlloc measurement against 16 KiB*len+1 MiB.",
+                level_note="Trusted: go/ssa, engine, z3; memory verdicts are native runtime.MemStats measurements of solver witnesses.",
+                bounds={"quick": "k<=3 arbitrary bytes; declared-length headers at nesting depth<=2 with <=2 bytes present", "thorough": "k<=5; depth<=4"},
+                outside=["runtime-fatal stack exhaustion on megabyte-deep nesting", "inputs longer than the bound"]),
+    "C01": dict(jobs=c01_jobs,
+                level_text="Bounded model checking of encode->decode->encode by symbolic execution of the real encoder and decoder: header fields and every element value symbolic, shapes enumerated within the bound.",
+                level_note="Trusted: go/ssa, engine, z3. Shapes beyond the bound and items above 65,537 elements are outside.",
+                bounds={"quick": "leaf formats x n<=2 elements; list trees depth<=2 width<=2 over 3 leaf formats; length boundaries 255/256/257", "thorough": "n<=6; trees depth<=3; all 13 leaf formats in lists; boundaries up to 65535/65536"},
+                outside=["items of more than 65,537 elements", "trees beyond the stated depth/width", "messages built by the SML parser (covered by C04/C05 through ToBytes)"]),
+    "C02": dict(jobs=c02_jobs,
+                level_text="Bounded model checking: the encoder's output is compared byte for byte with an independent statement of SEMI E5/E37 for every value of every element (symbolic) within enumerated shapes; incomplete messages encode to nothing.",
+                level_note="Trusted: go/ssa, engine, z3 (FP theory for F4 rounding).",
+                bounds={"quick": "13 leaf formats x n<=2; list trees depth<=2 width<=2", "thorough": "n<=5; depth<=3"},
+                outside=["items with more than 255 payload bytes (length-field arithmetic for every size is C13)"]),
     "C13": dict(jobs=c13_jobs, must_reach=["end"],
                 level_text="Bounded model checking: the element count is one symbolic 64-bit integer (0 <= n < 2^40), so the limit test and the length header are decided for every size at once, per format.",
                 level_note="Trusted: go/ssa, engine, z3. Counts >= 2^40 (no such slice can exist) are outside.",
